@@ -1,8 +1,9 @@
 (* Correspondence for Model/Host.v (C03).  An input is run twice on the implementation, without and
    with the dump options; the first run fixes how far the stages get (that determines the behaviours
    the adversary of the model picks), the parse hook supplies the facts about the top tree that the
-   unprotected glue looks at (a nil child, the import paths and whether strconv.Unquote accepts
-   them), and the model must then predict the outcome of the second run: Ok, the error prefix, or
+   unprotected glue looks at (a nil child; per import path of the top tree: whether strconv.Unquote
+   accepts it, which package it names -- equal paths get equal names, "" is Eval's own top package --
+   and whether rawLoadPackage's fs.Glob rejects the pattern built from it: an unclosed [ or a trailing \), and the model must then predict the outcome of the second run: Ok, the error prefix, or
    the site of the escaping panic. *)
 From Coq Require Import ZArith List String Bool.
 From GV Require Import Model.Loader Model.Host Model.Corr.
@@ -11,18 +12,27 @@ Open Scope string_scope.
 
 Inductive obs := OOk | OErr (prefix : string) | OEsc (site : string).
 
+(* what is known about one import path of the top tree *)
+Inductive pfact :=
+| PBad                        (* strconv.Unquote rejects the literal *)
+| PGlobErr (name : string)    (* fs.Glob rejects a pattern rawLoadPackage builds from it (never with a nil fs) *)
+| PName (name : string).      (* an ordinary path *)
+
 Inductive c03case :=
-| CEvalCase (sys_nil tree_dump code_dump has_nil : bool) (paths : list bool) (base observed : obs)
+| CEvalCase (sys_nil tree_dump code_dump has_nil : bool) (paths : list pfact) (base observed : obs)
 | CLoadCase (tree_dump code_dump has_nil : bool) (base observed : obs).
 
-Definition unq (s : string) : bool := negb (String.eqb s "bad").
+Definition bad_text : string := "<not unquotable>".
+Definition unq (s : string) : bool := negb (String.eqb s bad_text).
+Definition path_text (f : pfact) : string := match f with PBad => bad_text | PGlobErr n => n | PName n => n end.
+Definition is_glob_err (f : pfact) : bool := match f with PGlobErr _ => true | _ => false end.
 
 (* the statements of a top tree with the observed facts *)
-Definition mk_top (has_nil : bool) (paths : list bool) : list tree :=
+Definition mk_top (has_nil : bool) (paths : list pfact) : list tree :=
   let imp := match paths with
              | [] => @nil tree
              | _ => [TNode "import" "import"
-                       (flat_map (fun ok : bool => [TNode "(name)" "n" []; TNode "(string)" (if ok then "ok" else "bad") []]) paths)]
+                       (flat_map (fun f : pfact => [TNode "(name)" "n" []; TNode "(string)" (path_text f) []]) paths)]
              end in
   (imp ++ [if has_nil then TNode "/" "/" [TNode "(name)" "x" []; TNil] else TNode "(name)" "x" []])%list.
 
@@ -34,12 +44,12 @@ Definition ok_state : vmstate := mkVmstate ["nil"] [0%Z] 0%Z [].
 Definition comp_of (fails : bool) : comp_beh := if fails then CPanic false else CRet ["nil"] [].
 Definition run_of (fails : bool) : run_beh := if fails then RPanic ok_state else RRet.
 
-Definition eval_adv_of (has_nil : bool) (paths : list bool) (base : obs) : eval_adv :=
+Definition eval_adv_of (has_nil : bool) (paths : list pfact) (base : obs) : eval_adv :=
   mkEvalAdv
     (if is_err base "error in tokenize: " then ScanErr [] else ScanOk [])
     (if is_err base "error in parse: " then PPanic else PRet (mk_top has_nil paths))
     (if is_esc base then FPanic
-     else if is_err base "error in loadImports: " then FErr
+     else if existsb is_glob_err paths || is_err base "error in loadImports: " then FErr
      else FRet (fun _ => None) (fun _ => []) 1000)
     (comp_of (is_err base "error in compile (imports): "))
     (run_of (is_err base "error in run (imports): "))
